@@ -9,6 +9,7 @@ import gc
 import math
 import warnings
 import weakref
+from time import time as stdlib_time
 from typing import Any
 
 import anyio
@@ -43,6 +44,7 @@ class SigDirector:
         self.consumers: dict[int, Consumer] = {}
         self.n_ok = 0                              # successful dispatches (the next seq)
         self.dispatch_log: list[tuple[int, int, int]] = []   # (seq, chan, cls)
+        self.stamp: dict[int, tuple[Any, float]] = {}        # seq -> (chan, wall-clock time just before dispatch())
         self.warn_count = 0
         self.delivered: dict[int, list[int]] = {}
         self.flags: list[str] = []
@@ -220,19 +222,31 @@ class SigDirector:
                     res = ["HARNESS-UNKNOWN"]
                 res = res + [s for (j, s) in self.extra if j == i]
                 out.append(canon(res))
+            # binding never keeps the owner alive - with listeners still subscribed to its signals, too (an event that
+            # was dispatched carries its source, so only owners nothing was dispatched through are looked at here)
+            wrefs = {n: weakref.ref(o) for n, o in enumerate(self.instances) if o is not None}
+            self.instances.clear()
+            gc.collect()
+            used = {self.chan_key[ch][0] for (_seq, ch, _cls) in self.dispatch_log if ch is not None}
+            listened = sorted(n for n, r in wrefs.items() if r() is not None and n not in used)
+            self.listen_checked = len({self.chan_key[c][0] for cons in self.consumers.values() if cons.open
+                                       for c, sig in enumerate(self.chans) if any(sig is x for x in cons.sigs)} - used)
+            if listened:
+                self.flags.append(f"owner instances {listened} were not collected while streams were still listening to "
+                                  f"their signals (nothing had been dispatched through them)")
             for cons in self.consumers.values():
                 if cons.open:
                     cons.leave()
             await anyio.wait_all_tasks_blocked()
             tg.cancel_scope.cancel()
-        # binding never keeps the owner alive
-        refs = [weakref.ref(o) for o in self.instances if o is not None]
-        self.instances.clear()
+        # … and with nothing but the bound signals left
+        refs = list(wrefs.values())
         self.consumers.clear()
         gc.collect()
         alive = sum(1 for r in refs if r() is not None)
         return {"out": out, "warnings": self.warn_count, "delivered": {str(k): v for k, v in self.delivered.items()},
-                "dispatch_log": self.dispatch_log, "flags": self.flags, "owners_alive_after_gc": alive}
+                "dispatch_log": self.dispatch_log, "flags": self.flags, "owners_alive_after_gc": alive,
+                "listen_checked": self.listen_checked}
 
     def dispatch(self, op: dict[str, Any]) -> list[str]:
         from asphalt.core import SignalQueueFull, UnboundSignal
@@ -249,6 +263,11 @@ class SigDirector:
             for _ in range(op.get("n", 1)):
                 ev = self.evcls[op["cls"]]()
                 ev.seq = self.n_ok
+                if self.n_ok % 3 == 1:
+                    # an event object that already carries a stamp (a relay forwarding what it received elsewhere, a
+                    # creator filling in the fields): dispatch() stamps it with *this* signal's instance, topic, time
+                    ev.source, ev.topic, ev.time = _Elsewhere(), "stale_topic", 0.0
+                self.stamp[self.n_ok] = (op["chan"], stdlib_time())
                 try:
                     sig.dispatch(ev)
                 except UnboundSignal:
@@ -266,6 +285,10 @@ class SigDirector:
 
     def note(self, s: str) -> None:
         self.extra.append((self.opidx, s))
+
+
+class _Elsewhere:
+    uid = -1
 
 
 class Consumer:
@@ -297,6 +320,10 @@ class Consumer:
         ok = isinstance(ev.time, float) and any(
             getattr(ev.source, 'uid', None) == inst and ev.topic == attr
             for (inst, attr), sig in zip(d.chan_key, d.chans) if any(sig is x for x in self.sigs))
+        chan, t0 = d.stamp.get(ev.seq, (None, 0.0))
+        if ok and chan is not None:
+            # … precisely: the instance and attribute it was dispatched through, and a time not before that call
+            ok = (getattr(ev.source, 'uid', None), ev.topic) == d.chan_key[chan] and t0 <= ev.time <= stdlib_time()
         if not ok:
             d.flags.append(f"event {ev.seq} delivered to stream {self.s} with wrong source/topic/time")
 
